@@ -105,6 +105,9 @@ func genCase(t *rapid.T) Case {
 		MaxFile:   hx.Pick(70_000, 300_000),
 		MaxTarget: hx.Pick(300, 4000),
 		FileSizes: []int{int(c.Sizes.Min), int(c.Sizes.Max), int(c.Sizes.Max) + 1, 2*int(c.Sizes.Max) + 3, 10 * int(c.Sizes.Max)},
+		// the exact epoch is desync's "no time": such a node's own mtime is not compared, but it must
+		// not disturb the restoration of any other node's (its ancestors' in particular)
+		EpochTimes: true,
 	}
 	if hx.Thorough() {
 		o.BulkMax = 3000
@@ -120,6 +123,36 @@ func genCase(t *rapid.T) Case {
 		o.NoSpaceNames = true
 	}
 	c.Root = fstree.Gen(t, o)
+	// the shape around which deferred directory times go wrong: a non-empty directory with an epoch
+	// mtime, in a directory with a real mtime that gets further entries after it
+	if rapid.IntRange(0, 7).Draw(t, "epochshape") == 0 {
+		at := &c.Root
+		for d := rapid.IntRange(0, 2).Draw(t, "epochdepth"); d > 0; d-- { // descend into generated directories
+			var dirs []int
+			for i := range at.Kids {
+				if at.Kids[i].Kind == fstree.Dir && !at.Kids[i].Epoch {
+					dirs = append(dirs, i)
+				}
+			}
+			if len(dirs) == 0 {
+				break
+			}
+			at = &at.Kids[rapid.SampledFrom(dirs).Draw(t, "epochat")]
+		}
+		at.Epoch = false
+		inner := rapid.SampledFrom([]string{fstree.File, fstree.File, fstree.Dir, fstree.Symlink, fstree.Blk}).Draw(t, "epochinner")
+		after := rapid.SampledFrom([]string{fstree.File, fstree.File, fstree.Dir, fstree.Symlink, fstree.Chr}).Draw(t, "epochafter")
+		mk := func(name, kind string, sec int64) fstree.Spec {
+			return fstree.Spec{Name: []byte(name), Kind: kind, Perm: 0o755, Sec: sec, Nsec: 123_456_789, Size: 3, Target: []byte("t"), Major: 1, Minor: 3}
+		}
+		d := mk("\x01epoch-dir", fstree.Dir, 0) // sorts before almost every generated name
+		d.Epoch = true
+		d.Kids = []fstree.Spec{mk("inner", inner, 1_000_000_000)}
+		if rapid.Bool().Draw(t, "epochdeeper") {
+			d.Kids = []fstree.Spec{{Name: []byte("sub"), Kind: fstree.Dir, Perm: 0o700, Sec: 1_200_000_000, Kids: d.Kids}}
+		}
+		at.Kids = append(at.Kids, d, mk("\xffsibling-after", after, 1_100_000_000))
+	}
 	return c
 }
 
@@ -528,7 +561,7 @@ func label(c Case) string {
 // compare lists the differences between what a pipeline produced and the tree it had to reproduce.
 func compare(want *fstree.Node, r *result, output string, skipRootMeta, sha256d bool) []fstree.Difference {
 	if output == "localfs" {
-		return fstree.Diff(want, r.tree, fstree.DiffOptions{SkipRootMeta: skipRootMeta, Max: 1 << 20})
+		return fstree.Diff(want, r.tree, fstree.DiffOptions{SkipRootMeta: skipRootMeta, SkipEpochMtime: true, Max: 1 << 20})
 	}
 	return compareFlat(want, r.recs, output, skipRootMeta, sha256d)
 }
@@ -637,6 +670,15 @@ func run(c Case) (o hx.Outcome) {
 	}
 	if sh.Post2262 > 0 {
 		o.Class("mtime:post-2262")
+	}
+	if sh.EpochNodes > 0 {
+		o.Class("mtime:epoch-node-skipped")
+		for k := range sh.EpochKinds {
+			o.Class("mtime:epoch:" + k)
+		}
+	}
+	if sh.EpochDirThenSibling > 0 {
+		o.Class("shape:epoch-dir-then-sibling")
 	}
 	if sh.Depth >= 3 {
 		o.Class("depth>=3")
@@ -818,14 +860,14 @@ var spec = &hx.Spec[Case]{
 	ID:    "C05",
 	Level: "exploration",
 	Rule: "cases = (generated tree on disk: depth <= 4, 0..12 entries per directory (thorough: seeded fan-out to 3000), names of 1..255 arbitrary bytes, files 0..70000 bytes (thorough 300000) incl. sizes around the chunk sizes, " +
-		"symlinks to arbitrary targets, char/block devices, uid/gid in [0,2^32-2], mode in [0,07777], mtime anywhere in the ext4 range except the exact epoch, user.* xattrs on files and directories, trusted.* on symlinks and devices) " +
+		"symlinks to arbitrary targets, char/block devices, uid/gid in [0,2^32-2], mode in [0,07777], mtime anywhere in the ext4 range (the exact epoch on about 1 node in 25, and as a non-empty epoch directory followed by a sibling in 1 tree in 8), user.* xattrs on files and directories, trusted.* on symlinks and devices) " +
 		"x input {disk, tar stream pax/gnu with root entry or AddRoot} x {catar, ChunkStream+store+UnTarIndex with generated chunk sizes} x output {LocalFS, gnu-tar, mtree} x digest {sha512-256, sha256}; thorough adds the binary; " +
 		"non-trivial = tree has a directory with >= 2 children and at least one symlink, device, xattr, set-id/sticky bit or non-root owner; distinct by (pipeline, output, digest, tree shape)",
 	Assumptions: []string{
 		"oracle: plain-syscall snapshot (lstat, readlink, llistxattr/lgetxattr, rdev, content) of the destination equals the snapshot of the source on path set, type, mode & 07777, uid, gid, symlink target, xattrs, device numbers, content, mtime (ns); atime/ctime are not compared",
 		"the source snapshot, not the generated description, is the reference (the kernel clamps time stamps to the ext4 range)",
 		"LocalFS is used with zero LocalFSOptions (owner, xattrs and permissions of the archive are applied); the harness runs as root",
-		"mtime exactly at the epoch is never generated (desync documents 0 as 'no time'); a gnu tar input whose floor(mtime) is the epoch is written with mtime 1 s",
+		"about one node in 25 has an mtime of exactly the epoch (desync documents 0 as 'no time'): the mtime of such a node itself is not compared (class mtime:epoch-node-skipped), every other field of it and the mtime of every other node, its ancestors included, is; a gnu tar input whose floor(mtime) is the epoch although the source's is not is written with mtime 1 s",
 		"gnu-tar output: compared on path, type, mode & 07777, uid, gid, size and content, floor(mtime) in seconds, link target, device numbers (xattrs are not carried by the format)",
 		"mtree output: compared on path (after \\ooo decoding), type, mode & 07777, uid, gid, size, content digest under the active algorithm, mtime as <seconds>.<9 digits>, link target (link= or target=); device numbers and xattrs are not printed and not compared",
 		"tar input: the stream is written with archive/tar in tar(1) order; the expectation is what that stream carries (gnu: whole seconds, no xattrs; pax: no empty xattr values); with AddRoot the made-up root's own metadata is not compared",
@@ -833,7 +875,8 @@ var spec = &hx.Spec[Case]{
 		"fifos and sockets are not generated (desync documents skipping them; C13 covers that)",
 	},
 	Required: []string{"empty-directory", "empty-file", "file>max-chunk", "name:byte>=0x80", "sha256", "pipeline:catar", "pipeline:index", "pipeline:tarin-catar", "pipeline:tarin-addroot-catar",
-		"output:localfs", "output:gnutar", "output:mtree", "kind:symlink", "kind:chr", "kind:blk", "xattrs", "setid-or-sticky", "non-root-owner", "index:chunks>=2", "store:local", "store:mem"},
+		"output:localfs", "output:gnutar", "output:mtree", "kind:symlink", "kind:chr", "kind:blk", "xattrs", "setid-or-sticky", "non-root-owner", "index:chunks>=2", "store:local", "store:mem",
+		"mtime:epoch-node-skipped", "mtime:epoch:dir", "mtime:epoch:file", "mtime:epoch:symlink", "mtime:epoch:chr", "mtime:epoch:blk", "shape:epoch-dir-then-sibling"},
 	Gen:     genCase,
 	Run:     run,
 	Journal: true,
@@ -934,6 +977,46 @@ func TestEnum(t *testing.T) {
 			}
 		}
 	}
+	// a non-empty directory with an epoch mtime followed by a sibling, at the root and one and two levels
+	// down, with every kind of node inside it and after it, through every pipeline that unpacks to disk
+	m := 0
+	node := func(name, kind string, sec int64, kids ...fstree.Spec) fstree.Spec {
+		return fstree.Spec{Name: []byte(name), Kind: kind, Perm: 0o755, Sec: sec, Nsec: 5, Size: 2, Target: []byte("t"), Major: 1, Minor: 3, Kids: kids}
+	}
+	kinds := []string{fstree.File, fstree.Dir, fstree.Symlink, fstree.Chr, fstree.Blk}
+	type pl struct {
+		input, via  string
+		addRoot, nw bool
+	}
+	for _, p := range []pl{{"disk", "catar", false, false}, {"disk", "catar", false, true}, {"disk", "index", false, false}, {"tar", "catar", false, false}, {"tar", "catar", true, false}, {"tar", "index", true, true}} {
+		for depth := 0; depth <= 2; depth++ {
+			for _, inner := range kinds {
+				for _, after := range kinds {
+					for _, deeper := range []bool{false, true} {
+						in := []fstree.Spec{node("i", inner, 1_000_000_000)}
+						if deeper {
+							in = []fstree.Spec{node("s", fstree.Dir, 1_000_000_001, in...)}
+						}
+						d := node("D", fstree.Dir, 0, in...)
+						d.Epoch = true
+						grp := []fstree.Spec{node("A", fstree.File, 1_000_000_002), d, node("z", after, 1_000_000_003)}
+						for l := depth; l > 0; l-- {
+							grp = []fstree.Spec{node("P", fstree.Dir, 1_000_000_010+int64(l), grp...), node("y", fstree.File, 1_000_000_020+int64(l))}
+						}
+						c := Case{Digest: "sha512-256", Input: p.input, TarFormat: "pax", AddRoot: p.addRoot, Via: p.via, Output: "localfs", DestFresh: p.nw,
+							Sizes: gen.Sizes{Min: 48, Avg: 64, Max: 256}, Store: "mem", N: 2,
+							Root: fstree.Spec{Perm: 0o755, Sec: 1_100_000_000, Kids: grp}}
+						if !hx.Case(t, spec, c) {
+							return
+						}
+						m++
+					}
+				}
+			}
+		}
+	}
+	hx.AddNote("enumerated_epoch_shape_cases", m)
+	hx.Exhaustive("non-empty epoch-mtime directory followed by a sibling: depth 0..2 x 5 kinds inside x 5 kinds after x {direct, nested} x 6 disk-output pipelines")
 	hx.AddNote("enumerated_setid_cases", n)
 	hx.Exhaustive("all 8 setuid/setgid/sticky combinations on root, directory, file, char and block device x {localfs, gnutar, mtree} x {sha512-256, sha256}")
 }
